@@ -326,6 +326,11 @@ func (fc *FnCtx) setupEntry() {
 		for _, r := range fc.contract.Requires {
 			t := sc.trBool(r.E)
 			fc.assume(t)
+			if fc.fn.Parent() != nil {
+				// a function literal is mostly called through a function value:
+				// its precondition is then not an obligation of any call site
+				fc.assumeNote("precondition of function literal " + fc.contract.Name + " is assumed where it is called through a function value (checked only at direct calls from functions under contract): " + r.Src)
+			}
 		}
 	}
 }
@@ -422,6 +427,33 @@ func (fc *FnCtx) edge(to *ssa.BasicBlock, cond Term) {
 			}
 		}
 	}
+	exitEnv := fc.env
+	if from != nil && fc.contract != nil {
+		// ghost updates on loop-exit edges apply to this edge only
+		for _, li := range fc.loopList {
+			if !li.Blocks[from] || li.Blocks[to] || fc.insideLoopSyntax(li, to) {
+				continue
+			}
+			for _, aa := range fc.contract.Asserts {
+				if aa.Anchor == "loopexit" && aa.Ord == li.Ord && aa.Set != nil {
+					aa.Matched++
+					if exitEnv == fc.env {
+						exitEnv = fc.env.clone()
+					}
+					if _, ok := fc.ghostTypes[aa.Set.Name]; !ok {
+						fc.fail("set of undeclared ghost %s", aa.Set.Name)
+					}
+					saved := fc.env
+					fc.env = exitEnv
+					sc := fc.loopScope(li, fc.env)
+					sc.pos = 0
+					t, _ := sc.tr(aa.Set.E)
+					fc.assign("g_"+aa.Set.Name, t)
+					fc.env = saved
+				}
+			}
+		}
+	}
 	if from != nil {
 		for _, li := range fc.loopList {
 			if li.Spec != nil && li.Spec.Exhaustive && (li.Blocks[from] || fc.insideLoopSyntax(li, from)) && !li.Blocks[to] && from != li.Header && !fc.insideLoopSyntax(li, to) {
@@ -429,7 +461,7 @@ func (fc *FnCtx) edge(to *ssa.BasicBlock, cond Term) {
 			}
 		}
 	}
-	fc.pend[to] = append(fc.pend[to], &pendingEdge{from: fc.cur, cond: cond, env: fc.env.clone(), phis: phis})
+	fc.pend[to] = append(fc.pend[to], &pendingEdge{from: fc.cur, cond: cond, env: exitEnv.clone(), phis: phis})
 }
 
 // ------------------------------------------------------------------- loop cut
